@@ -98,6 +98,12 @@ func c01WorkerMain(args []string) {
 	}
 	out := bufio.NewWriterSize(os.Stdout, 1<<16)
 	defer out.Flush()
+	if fam.Name == "special-paths" {
+		// reading a device that never reaches EOF must end in a runtime "out of memory" crash of
+		// this worker (attributed to the case), not in exhausting the machine
+		lim := syscall.Rlimit{Cur: 3 << 30, Max: 3 << 30}
+		syscall.Setrlimit(9 /* RLIMIT_AS */, &lim)
+	}
 
 	var caseStartCPU atomic.Value
 	var curIdx int64 = -1
@@ -137,12 +143,36 @@ func c01WorkerMain(args []string) {
 	out.WriteString("DONE\n")
 }
 
-func c01WriteProject(root string, files map[string]string) {
-	os.MkdirAll(filepath.Join(root, ".git"), 0o755)
+var c01PrevSpecial bool
+
+func c01WriteProject(root string, c *c01Case) {
+	if c01PrevSpecial || len(c.Special) > 0 {
+		os.RemoveAll(root) // special files of the previous case must not leak into this one
+		os.MkdirAll(root, 0o755)
+	}
+	c01PrevSpecial = len(c.Special) > 0
+	if c.NoRepo {
+		os.RemoveAll(filepath.Join(root, ".git"))
+	} else {
+		os.MkdirAll(filepath.Join(root, ".git"), 0o755)
+	}
 	for _, p := range c01Channels {
 		os.Remove(filepath.Join(root, p))
 	}
-	writeFiles(root, files)
+	writeFiles(root, c.Files)
+	for rel, kind := range c.Special {
+		p := filepath.Join(root, rel)
+		os.MkdirAll(filepath.Dir(p), 0o755)
+		os.RemoveAll(p)
+		switch {
+		case kind == "fifo":
+			syscall.Mkfifo(p, 0o644)
+		case kind == "dir":
+			os.MkdirAll(p, 0o755)
+		case strings.HasPrefix(kind, "symlink:"):
+			os.Symlink(strings.TrimPrefix(kind, "symlink:"), p)
+		}
+	}
 }
 
 // c01RunCase executes one case and classifies the outcome. Only panics, crashes, bad exit statuses
@@ -153,7 +183,13 @@ func c01RunCase(c *c01Case, idx int, scratch string) (res c01Result) {
 		res.Outcome = "skip"
 		return
 	}
-	c01WriteProject(scratch, c.Files)
+	if !c.NoRepo && len(c.Special) == 0 && !c.Tool && idx%10 == 4 {
+		c.NoRepo = true // a share of all cases lives outside any repository (no project, null caches)
+		if c.Mode == "lib-file" {
+			c.Mode = "lib-files"
+		}
+	}
+	c01WriteProject(scratch, c)
 	wpath := filepath.Join(scratch, c01PathWorkflow)
 	if c.Mode == "cli" || c.Mode == "cli-stdin" {
 		return c01RunCLI(c, idx, scratch)
@@ -220,7 +256,7 @@ func c01RunCLI(c *c01Case, idx int, scratch string) (res c01Result) {
 	if c.Mode == "cli-stdin" {
 		target = "-" // the workflow arrives on standard input
 	}
-	script := fmt.Sprintf("ulimit -t %d; exec %q -no-color -shellcheck=%q -pyflakes=%q %q", c01SoloCPUBudget, bin, tool, tool, target)
+	script := fmt.Sprintf("ulimit -t %d; ulimit -v 3000000; exec %q -no-color -shellcheck=%q -pyflakes=%q %q", c01SoloCPUBudget, bin, tool, tool, target)
 	cmd := exec.Command("/bin/sh", "-c", script)
 	cmd.Dir = scratch
 	if c.Mode == "cli-stdin" {
@@ -643,6 +679,9 @@ func runC01(r *Run) {
 		if f.Name == "tool-scripts" {
 			chunk = 12
 		}
+		if f.Name == "special-paths" {
+			chunk = 6
+		}
 		for from := 0; from < f.N; from += chunk {
 			to := from + chunk
 			if to > f.N {
@@ -655,7 +694,7 @@ func runC01(r *Run) {
 	nplain := len(tasks)
 	if _, err := os.Stat(filepath.Join(binDir(), "verifmon-race")); err == nil {
 		for i := 0; i < nplain; i++ {
-			if mix64(uint64(i)^r.Seed)%10 == 0 {
+			if mix64(uint64(i)^r.Seed)%10 == 0 && tasks[i].fam.Name != "special-paths" {
 				t := tasks[i]
 				t.race = true
 				tasks = append(tasks, t)
